@@ -15,6 +15,21 @@ pub fn gens() -> Vec<Gen> {
 
 fn cases(_rng: &mut Rng, sink: &mut dyn FnMut(J) -> bool) {
     let mut n = 0;
+    // one issuer instance, the identical request repeated with the serialization format
+    // alternating (Compact, JSON, Compact, ...) or in blocks (C, C, J, J, ...)
+    for (threads, per_thread) in [(1usize, 6usize), (2, 10), (1, 40)] {
+        for pattern in ["alternate", "blocks"] {
+            for decoys in [true, false] {
+                for first in ["compact", "json"] {
+                    n += 1;
+                    let alg = ["ES256", "EdDSA", "HS256"][n % 3];
+                    if !sink(json!({"threads": threads, "per_thread": per_thread, "reuse_issuer": true, "same_claims": true, "decoys": decoys, "format": first, "format_pattern": pattern, "alg": alg})) {
+                        return;
+                    }
+                }
+            }
+        }
+    }
     for (threads, per_thread) in [(1usize, 20usize), (2, 20), (4, 50), (8, 50), (1, 300), (3, 100), (8, 200), (5, 400), (8, 1000), (16, 1000)] {
         for reuse_issuer in [true, false] {
             for same_claims in [true, false] {
@@ -34,7 +49,7 @@ struct Collected {
     problems: Vec<String>,
 }
 
-fn worker(t: usize, per_thread: usize, reuse: bool, same_claims: bool, decoys: bool, format: &str, alg: &str) -> Collected {
+fn worker(t: usize, per_thread: usize, reuse: bool, same_claims: bool, decoys: bool, first_format: &str, pattern: &str, alg: &str) -> Collected {
     let mut c = Collected { salts: vec![], decoys: vec![], problems: vec![] };
     let mut issuer = sut::new_issuer(alg);
     for i in 0..per_thread {
@@ -42,6 +57,12 @@ fn worker(t: usize, per_thread: usize, reuse: bool, same_claims: bool, decoys: b
             json!({"iss": "i", "exp": FAR_EXP, "sub": "s", "a": {"b": 1, "c": [true, null]}, "d": "x"})
         } else {
             json!({"iss": "i", "exp": FAR_EXP, "sub": format!("s{t}-{i}"), "a": {"b": i, "c": [true, null]}, "d": "x"})
+        };
+        let other = if first_format == "compact" { "json" } else { "compact" };
+        let format = match pattern {
+            "alternate" if i % 2 == 1 => other,
+            "blocks" if (i / 2) % 2 == 1 => other,
+            _ => first_format,
         };
         let out = if reuse {
             sut::issue_on(&mut issuer, &claims, &Strategy::AllLevels, None, decoys, format)
@@ -108,9 +129,10 @@ pub fn check(case: &J) -> Verdict {
     let mut handles = Vec::new();
     for t in 0..threads {
         let (b, f, a) = (barrier.clone(), format.clone(), alg.clone());
+        let pat = case["format_pattern"].as_str().unwrap_or("fixed").to_string();
         handles.push(std::thread::spawn(move || {
             b.wait();
-            worker(t, per_thread, reuse, same_claims, decoys, &f, &a)
+            worker(t, per_thread, reuse, same_claims, decoys, &f, &pat, &a)
         }));
     }
     let mut salts: Vec<(String, String)> = Vec::new();
